@@ -1004,7 +1004,6 @@ func (s *server) MutateRows(req *btpb.MutateRowsRequest, stream btpb.Bigtable_Mu
 
 	defer tbl.write()
 	tbl.mu.Lock()
-	defer tbl.mu.Unlock()
 	now := s.clock()
 
 	for i, entry := range req.Entries {
@@ -1023,6 +1022,9 @@ func (s *server) MutateRows(req *btpb.MutateRowsRequest, stream btpb.Bigtable_Mu
 			Status: &statpb.Status{Code: code, Message: msg},
 		}
 	}
+	// Give up the table lock before the response is handed to the transport: a
+	// client that does not read it must not block the table.
+	tbl.mu.Unlock()
 	return stream.Send(res)
 }
 
